@@ -445,6 +445,14 @@ fn spawn_subject() -> Subject {
 	Subject { tx, done: drx }
 }
 
+/// `run_op` on the controlling thread (read-back at quiescence): a panic is a finding, not a crash.
+fn guarded_op(store: &AnyStore, names: &(String, String, [String; NKEYS]), scn: &Scenario, sh: &Shared, exec: &Exec, op: &Op) -> (HRes, Option<Failure>) {
+	match mc_common::par::guarded(|| run_op(store, names, scn, sh, exec, op)) {
+		Ok(x) => x,
+		Err(m) => (HRes::Failed, Some(Failure { oracle: "no-panic", detail: format!("{} panicked: {}", op.encode(), m) })),
+	}
+}
+
 fn thread_main(exec: Arc<Exec>, tid: usize, scn: Arc<Scenario>, store: Arc<AnyStore>, sh: Arc<Shared>) {
 	sched::bind_thread(&exec, tid);
 	let names = scn.variant.names();
@@ -654,24 +662,28 @@ pub fn run_execution(scn: &Arc<Scenario>, prefix: &[Action], policy: &Policy, wd
 		}
 		// lock-map entries left behind by the threads (measured before the read-back below, which
 		// would clean them up)
-		lockmap_leftover = store.state_size();
+		lockmap_leftover = mc_common::par::guarded(|| store.state_size()).unwrap_or(usize::MAX);
+		if lockmap_leftover == usize::MAX {
+			failures.push(Failure { oracle: "no-panic", detail: "reading the lock-map size panicked (poisoned lock)".into() });
+			lockmap_leftover = 0;
+		}
 		// ----- quiescence: read everything back through the API (sequentially, after everything)
 		let mut clock = hops.iter().map(|h| h.ret).max().unwrap_or(0) + 10;
 		for k in 0..NKEYS {
-			let (res, problem) = run_op(&store, &names, scn, &sh, &exec, &Op::Read { key: k as u8 });
+			let (res, problem) = guarded_op(&store, &names, scn, &sh, &exec, &Op::Read { key: k as u8 });
 			if let Some(p) = problem {
 				failures.push(Failure { oracle: p.oracle, detail: format!("final read of k{}: {}", k, p.detail) });
 			}
 			hops.push(HOp { call: clock, ret: clock + 1, kind: HKind::Read { key: k }, res: res.clone(), version: None, label: format!("final R{}{}", k, hres_short(&res)) });
 			clock += 2;
 		}
-		let (res, problem) = run_op(&store, &names, scn, &sh, &exec, &Op::List);
+		let (res, problem) = guarded_op(&store, &names, scn, &sh, &exec, &Op::List);
 		if let Some(p) = problem {
 			failures.push(Failure { oracle: p.oracle, detail: format!("final list: {}", p.detail) });
 		}
 		hops.push(HOp { call: clock, ret: clock + 1, kind: HKind::List, res: res.clone(), version: None, label: format!("final L{}", hres_short(&res)) });
 		// list_all_keys must agree with list
-		if let (HRes::Keys(present), Ok(all)) = (&res, store.list_all_keys()) {
+		if let (HRes::Keys(present), Ok(Ok(all))) = (&res, mc_common::par::guarded(|| store.list_all_keys())) {
 			let mut want: Vec<(String, String, String)> = (0..NKEYS).filter(|k| present[*k]).map(|k| (pn.clone(), sn.clone(), keys[k].clone())).collect();
 			want.sort();
 			let mut got = all.clone();
@@ -714,7 +726,7 @@ pub fn run_execution(scn: &Arc<Scenario>, prefix: &[Action], policy: &Policy, wd
 			}
 		}
 		final_digest = Some(mc_common::fnv64(format!("{}|{}|{}", scn.v2, scn.variant.name(), fd).as_bytes()));
-		if store.state_size() != 0 {
+		if mc_common::par::guarded(|| store.state_size()).unwrap_or(0) != 0 {
 			failures.push(Failure { oracle: "harness", detail: "lock-map entries left after the sequential read-back".into() });
 		}
 		post_desc = format!("files[{}] lockmap={}", fd, lockmap_leftover);
